@@ -493,6 +493,8 @@ type sess struct {
 	slow   bool  // a step of the well-behaved client failed after taking more than half the limit that governs it
 
 	rest []byte // stallAt: what is left of the unit the client stalls in (the bytes that would complete it)
+
+	patience time.Duration // how long this client waits for the proxy in a step of its prelude (0: 15 s / 10 s)
 }
 
 func (s *sess) us(t time.Time) int64 { return t.Sub(s.base).Microseconds() }
@@ -550,7 +552,11 @@ func (s *sess) handshake(inner bool) (time.Time, error) {
 	}
 	tc := tls.Client(s.sc, conf)
 	begin := time.Now()
-	tc.SetDeadline(begin.Add(15 * time.Second))
+	wait := 15 * time.Second
+	if s.patience > 0 {
+		wait = s.patience
+	}
+	tc.SetDeadline(begin.Add(wait))
 	if err := tc.Handshake(); err != nil {
 		// a handshake the proxy gave up on because this client was too slow for the limit says nothing
 		if lim := s.e.conf.L.TLS; lim > 0 && time.Since(begin) > time.Duration(lim)*time.Millisecond/2 {
@@ -651,7 +657,11 @@ func (s *sess) connectMITM() (time.Time, error) {
 		return t, err
 	}
 	s.ev(t, "hm")
-	s.conn.SetReadDeadline(time.Now().Add(10 * time.Second))
+	wait := 10 * time.Second
+	if s.patience > 0 {
+		wait = s.patience
+	}
+	s.conn.SetReadDeadline(time.Now().Add(wait))
 	res, err := rig.ReadResponse(s.br, "CONNECT")
 	s.conn.SetReadDeadline(time.Time{})
 	if err != nil || res == nil || res.Status != 200 {
